@@ -253,7 +253,18 @@ def judge(impl, cfg, hist, outs, probe_vals, pr, vb: VB, pre_probe: Optional[Lis
                        (a24 >> 15) if (r.mirror and 0x80000 <= a24 <= 0xBFFFF) else None))
     if undocumented:
         return tuple(probe_vals)      # touches 0x100100..0xFFFFFF: outside the documented space, not judged
-    straddle = "/straddles-region-boundary" if len(kinds) > 1 else ""
+    parts = set()
+    for k in range(op[2]):
+        key = r.key(op[1] + k)
+        if key[0] == "int":
+            parts.add(("internal", 0))
+        elif key[0] == "ov":
+            parts.add((f"overlay-{key[2]}", key[1]))
+        else:
+            a24 = (op[1] + k) & 0xFFFFFF
+            parts.add(("ext" + ("" if r.writable(key) else "-readonly") + ("-mirrored" if (r.mirror and 0x80000 <= a24 <= 0xBFFFF) else ""),
+                       (a24 >> 15) if (r.mirror and 0x80000 <= a24 <= 0xBFFFF) else 0))
+    straddle = ("/straddles-region-boundary:" + "+".join(sorted(n for n, _ in parts))) if len(kinds) > 1 else ""
     tkinds = {k[0] if k[0] != "ov" else "ext" for k in targets}
     for p, before, after in zip(pr, pre_probe, probe_vals):
         key = r.key(p)
